@@ -1,9 +1,11 @@
 #!/bin/bash
-# usage: seed_all.sh "<ID list>" "<checks to run against each>"   -> appends to /tmp/mut/results.txt
+# usage: seed_all.sh "<ID list>" "<all checks>"   -> appends to /tmp/mut/results.txt
 for id in $1; do for v in A B; do
   [ -f /tmp/mut/$id.out/$v/patch.diff ] || continue
-  c=$(/verif/tools/seed_confirm.sh $id $v | tail -2 | tr '\n' ' ')
+  if [ -f /tmp/mut/$id.out/$v/CONFIRMED ]; then c=$(cat /tmp/mut/$id.out/$v/CONFIRMED); else
+    c=$(/verif/tools/seed_confirm.sh $id $v | tail -2 | tr '\n' ' '); echo "$c" | grep -q " CONFIRMED" && echo "$c" > /tmp/mut/$id.out/$v/CONFIRMED; fi
   echo "== $id/$v :: $c" >> /tmp/mut/results.txt
-  /verif/tools/seed_run.sh /tmp/mut/$id.out/$v/patch.diff $2 >> /tmp/mut/results.txt 2>&1
+  others=$(echo $2 | tr ' ' '\n' | grep -v "^$id$" | tr '\n' ' ')
+  /verif/tools/seed_run.sh /tmp/mut/$id.out/$v/patch.diff $id $others >> /tmp/mut/results.txt 2>&1
 done; done
 echo "DONE $1" >> /tmp/mut/results.txt
